@@ -71,6 +71,13 @@ def run(ctx, rep):
     for tn, topts in (('C', ['noecs', 'nometa-ecs']), ('Cf', ['full']), ('CF', ['fast']), ('Cfe', ['full', 'ecs']), ('rej', ['reject'])):
         feats = variants.FULL if tn == 'rej' else variants.PLAIN
         extra.append(variants.Variant('nr_verify_%s' % tn, 'nr', feats, ['tables-file="lex.tables"', 'tables-verify', 'yylineno'] + topts, tables=True))
+    # flex's own ~275 patterns (27 start conditions, ^ rules): large tables, all element widths, a long start-state list
+    import tbl_probes
+    body = tbl_probes.scanl_probe(ctx.art)[0]
+    for tn, topts in (('Cem', ['ecs', 'meta-ecs']), ('C', ['noecs', 'nometa-ecs']), ('Cf', ['full']), ('CF', ['fast']), ('CFe', ['fast', 'ecs'])):
+        opts = ['noyywrap', '8bit', 'tables-file="lex.tables"', 'tables-verify', 'yylineno'] + topts
+        spec = ''.join('%%option %s\n' % o for o in opts) + body
+        extra.append(variants.Variant('nr_verify_scanl_%s' % tn, 'nr', (), opts, raw_spec=spec, tables=True))
     variants.instantiate(ctx.art, extra, 'c15file')
     vs += [v for v in extra if v.ll is not None]
     n = 0
